@@ -184,8 +184,25 @@ SCALARS = [
     # two positions, i.e. the known shared-exception finding of C15, not a C03 matter)
     lambda: _lib().TartifletteError, lambda: _lib().MultipleException(),
     lambda: _lib().MultipleException([ValueError("inner as value")]), lambda: __import__("asyncio").CancelledError(),
+    lambda: EqName("A"), lambda: EqName("RED"), lambda: EqName("True"), lambda: EqName("a"), lambda: EqName("B"),
     lambda: KeyboardInterrupt(), lambda: GeneratorExit(), lambda: _lib().MultipleException, lambda: BaseException("base as value"),
 ]
+
+
+class EqName:
+    """An object that compares and hashes equal to a string (an ORM 'choice' object standing for an enum value)."""
+
+    def __init__(self, name):
+        self.name = name
+
+    def __eq__(self, other):
+        return other == self.name if isinstance(other, str) else NotImplemented
+
+    def __hash__(self):
+        return hash(self.name)
+
+    def __repr__(self):
+        return "EqName(%r)" % self.name
 
 
 def _lib():
